@@ -14,6 +14,8 @@ CONSTANTS
   D = 4
   NameFamily = "plain"
   NameImpl = "asis"
+  SampleImpl = "ref"
+  ForkImpl = "ref"
 INVARIANT TypeOK
 INVARIANT C03_ExportSucceeds
 INVARIANT C03_ExportIsWinner
